@@ -743,17 +743,23 @@ def run(ctx):
     # 1b. non-vacuity: each deviating mechanism / model variant violates the theorem that is about it
     small = dict(full, MachineLE=MACHINE_LE, MaxFields=2, MaxDepth=1, Writes={"w", "ro"})
     leak = dict(hist, MachineLE=MACHINE_LE, MaxFields=1, Spells={">"}, Fns={"swap"}, CallerOps={"fresh"}, MaxDepth=3)
-    for what, base, devi, thm in () if dev else (
-            ("unrepaired order detection (fields without byte order decisive)", small, dict(FixedDetect=False), "MechRefines"),
-            ("order detection blind to nested records", small, dict(NestedDetect=False), "MechRefines"),
-            ("dtype assigned only to contiguous arrays, a re-typed view returned otherwise", small, dict(RetypeAlways=False), "MechRefines"),
-            ("dtype assigned before the swap that a read-only array refuses", small, dict(SwapFirst=False), "MechRefines"),
-            ("swapped dtype object memoised per source dtype", leak, dict(CacheDtype=True), "LineageThm")):
+    deviations = () if dev else (
+        ("unrepaired order detection (fields without byte order decisive)", small, dict(FixedDetect=False), "MechRefines"),
+        ("order detection blind to nested records", small, dict(NestedDetect=False), "MechRefines"),
+        ("dtype assigned only to contiguous arrays, a re-typed view returned otherwise", small, dict(RetypeAlways=False), "MechRefines"),
+        ("dtype assigned before the swap that a read-only array refuses", small, dict(SwapFirst=False), "MechRefines"),
+        ("swapped dtype object memoised per source dtype", leak, dict(CacheDtype=True), "LineageThm"))
+
+    def deviating(arg):
+        what, base, devi, thm = arg
         rb = ctx.tlc("ByteOrderMC.tla", what="self-test: %s violates %s" % (what, thm),
                      cfg_text=cfg(constants=dict(base, **devi), invariants=[thm]),
-                     workers=4, allow_violation=True, coverage=False)
-        if thm not in rb.violated:
-            raise MachineryError("self-test failed: %s not violated by the deviating variant (%s)" % (thm, what))
+                     workers=2, allow_violation=True, coverage=False)
+        return thm in rb.violated
+    with ThreadPoolExecutor(max(2, min(5, int(os.environ.get("VH_MAX_WORKERS", "16"))))) as ex:
+        for (what, _, _, thm), bites in zip(deviations, list(ex.map(deviating, deviations))):
+            if not bites:
+                raise MachineryError("self-test failed: %s not violated by the deviating variant (%s)" % (thm, what))
     # 2. export every behaviour (spec -> code)
     runs = model_runs(ctx.tier)
     if dev:
